@@ -3,6 +3,7 @@ import PvModel.Props.C04Rel
 import PvModel.Props.C04Count
 import PvModel.Props.C17Enforce
 import PvModel.Props.C17Query
+import PvModel.Props.C04Query
 #print axioms Pv.C04_disj_comm
 #print axioms Pv.C04_disj_comm_mem
 #print axioms Pv.C04_disj_perm_mem
@@ -21,3 +22,4 @@ import PvModel.Props.C17Query
 #print axioms Pv.C04_answers_are_paths
 #print axioms Pv.C04_fd_answer_values_perm
 #print axioms Pv.C04_fd_query_reorder
+#print axioms Pv.C04_query_reorder_meaning
